@@ -470,8 +470,10 @@ impl util::BitVec
                 let mut digit = 0;
                 for bit_index in 0..bits_per_digit
                 {
-                    let i = span.offset.unwrap() + digit_index * bits_per_digit + bit_index;
-                    let bit = self.read_bit(i);
+                    let bit_in_span = digit_index * bits_per_digit + bit_index;
+                    let bit =
+                        bit_in_span < span.size &&
+                        self.read_bit(span.offset.unwrap() + bit_in_span);
 
                     digit <<= 1;
                     digit |= if bit { 1 } else { 0 };
@@ -618,8 +620,10 @@ impl util::BitVec
                 let mut digit = 0;
                 for bit_index in 0..bits_per_digit
                 {
-                    let i = span.offset.unwrap() + digit_index * bits_per_digit + bit_index;
-                    let bit = self.read_bit(i);
+                    let bit_in_span = digit_index * bits_per_digit + bit_index;
+                    let bit =
+                        bit_in_span < span.size &&
+                        self.read_bit(span.offset.unwrap() + bit_in_span);
 
                     digit <<= 1;
                     digit |= if bit { 1 } else { 0 };
